@@ -252,12 +252,14 @@ impl OctetString {
                         "long string component in CER mode"
                     ));
                 }
+                // Only the last component may be shorter than 1000 octets,
+                // so nothing may follow a short one.
+                if short {
+                    return Err(primitive.content_err(
+                        "short non-terminal string component in CER mode"
+                    ));
+                }
                 if primitive.remaining() < 1000 {
-                    if short {
-                        return Err(primitive.content_err(
-                            "short non-terminal string component in CER mode"
-                        ));
-                    }
                     short = true
                 }
                 primitive.skip_all()
